@@ -40,6 +40,7 @@ func genC19(t *rapid.T) History {
 	sleeps := 0
 	closed := false
 	next := uint32(0)
+	var used []uint32
 	for i := 0; i < n; i++ {
 		k := rapid.IntRange(0, 99).Draw(t, "opkind")
 		switch {
@@ -69,9 +70,18 @@ func genC19(t *rapid.T) History {
 			closed = true
 		default:
 			var off uint32
-			switch rapid.IntRange(0, 5).Draw(t, "seqkind") {
+			switch rapid.IntRange(0, 6).Draw(t, "seqkind") {
 			case 0:
 				off = rapid.Uint32Range(0, 12).Draw(t, "off")
+			case 2, 3:
+				// one more record for an event pushed before (most likely still buffered): a record that arrives
+				// late must not make its event any younger
+				if len(used) > 0 {
+					off = used[len(used)-1-rapid.IntRange(0, min(3, len(used)-1)).Draw(t, "recent")]
+				} else {
+					next++
+					off = next
+				}
 			case 1:
 				next += rapid.Uint32Range(1, 3).Draw(t, "gap")
 				off = next
@@ -79,8 +89,9 @@ func genC19(t *rapid.T) History {
 				next++
 				off = next
 			}
-			typ := rapid.SampledFrom([]uint16{1300, 1300, 1302, 1307, 1309, 1400, 1300, 1302, eoe, 1327, 1100}).Draw(t, "typ")
+			typ := rapid.SampledFrom([]uint16{1300, 1309, 1302, 1307, 1300, 1400, 1306, 1302, eoe, 1327, 1100, 1309}).Draw(t, "typ")
 			h.Ops = append(h.Ops, Op{K: opPush, Seq: h.Base + off, Typ: typ})
+			used = append(used, off)
 		}
 	}
 	if !closed && rapid.Bool().Draw(t, "endclose") {
